@@ -17,7 +17,7 @@ from ..state import State, Obj, IntV, PtrV, NULL, MAXLEN
 from ..terms import Lin, ZERO
 from . import own
 from .c08 import string_scene, SliceHooks
-from .common import short, fn_loc
+from .common import short, fn_loc, slot_subst, subst, robust
 
 LEVEL = 'proof'
 EXPLANATION = ('abstract interpretation of every integer printer with the value free over its whole type (magnitude term and sign '
@@ -160,6 +160,10 @@ class IterHooks(Hooks):
     widen_on_entry = True
     max_depth = 4
 
+    def on_store(self, I, st, inst, p, v, nbytes):
+        if p.obj == 'FMTR':
+            st.ev('fmt-store', inst, p.off, nbytes, v)
+
 
 def digit_loop(run, m, F, E):
     n = 0
@@ -172,7 +176,7 @@ def digit_loop(run, m, F, E):
         bits = int(f.params[1]['ty'][1:])
         sn = re.match(r'%"?([^"*]+)"?\*', f.params[0]['ty']).group(1)
         lay = m.structs.get(sn)
-        problems = []
+        problems, und, need_exact = [], [], []
         arr = re.match(r'\[(\d+) x i8\]', lay['fields'][0][0]) if lay else None
         if not arr:
             run.ob('R12.3', short(f.dem), None, 'formatter layout not recognised', loc=fn_loc(f))
@@ -195,35 +199,83 @@ def digit_loop(run, m, F, E):
             s2 = o.st
             for e in s2.events:
                 if e[0] == 'oob':
-                    problems.append('store outside the formatter object at line %d' % e[1].line)
+                    problems.append('access outside %s at line %d' % ('the formatter object' if isinstance(e[3], PtrV) and e[3].obj == 'FMTR' else 'an object', e[1].line))
+                elif e[0] == 'oob?' and isinstance(e[3], PtrV) and e[3].obj is not None and e[3].obj.startswith('G:'):
+                    # (stores into the formatter's own buffer at the widened write position are bounded by the halving lemma, see below)
+                    env = e[6] if len(e) > 6 else None
+                    if env is not None and not robust([e[3].off]):
+                        need_exact.append(e[1].line)
+                    if env is not None and robust([e[3].off]):
+                        problems.append('%s of %r byte(s) at offset %r of %s (size %r) at line %d; witness %s' % (
+                            e[2], e[4], e[3].off, 'the formatter buffer' if e[3].obj == 'FMTR' else 'a constant table', e[5], e[1].line, own.fmt_env(env)))
+                    else:
+                        und.append('bounds of the access at line %d not decided' % e[1].line)
             if o.kind == 'backedge':
                 nb += 1
                 b = s2.flags.get('wbegin:' + f.name) or {}
                 e2 = s2.flags.get('wend:' + f.name) or {}
-                dv = dp = None
-                for nm, bv in b.items():
-                    ev = e2.get(nm)
-                    if isinstance(bv, PtrV) and isinstance(ev, PtrV) and bv.obj == 'FMTR':
-                        dp = ev.off - bv.off
-                    elif isinstance(bv, IntV) and isinstance(ev, IntV) and bv.bits == bits and nm[0] == 'phi':
-                        dv = (bv, ev)
-                if dp != Lin.const(-1):
-                    problems.append('an iteration moves the write position by %r, expected -1' % (dp,))
-                if dv is None:
-                    problems.append('the value is not loop-carried')
+                wi = max([k for k, e in enumerate(s2.events) if e[0] == 'widen' and e[1] == f.name] or [-1])
+                # the digit stored in this iteration: one unit of the buffer, one place in front of the next iteration's
+                # (by position - the loop may keep a pointer into the buffer or an index)
+                digs = [e for e in s2.events[wi + 1:] if e[0] == 'fmt-store' and e[3] == 1]
+                if not digs and o.info and o.info[0] == f.name:
+                    continue            # a loop of the function that stores no digit (e.g. one that derives a shift from the radix)
+                if len(digs) != 1:
+                    und.append('an iteration stores %d units into the buffer, expected one digit' % len(digs))
                 else:
-                    bv, ev = dv
+                    q = digs[0][2]
+                    qn = subst(q, slot_subst(b, e2))
+                    if qn is None:
+                        und.append('the position of the next digit is not expressible over the loop-carried values')
+                    elif s2.is_eq0(qn - q + 1) is not True:
+                        d = qn - q
+                        env = s2.find_model([d + 1], lambda v: v[0] != 0) if robust([d]) else None
+                        if env is not None or not d.t:
+                            problems.append('the next digit is stored %r places from this one, expected one place in front (-1)' % (d,))
+                        else:
+                            und.append('distance to the next digit (%r) not decided' % (d,))
+                # the value: some carried slot of the value's width becomes value / radix, and the body runs only for value != 0
+                cands = [(bv, e2.get(nm)) for nm, bv in b.items() if isinstance(bv, IntV) and isinstance(e2.get(nm), IntV) and bv.bits == bits]
+                good = None
+                for bv, ev in cands:
                     at = ev.lin.single_atom()
-                    ok = at is not None and isinstance(at[0], tuple) and at[0][0] == 'udiv' and at[0][1] == I.as_u(s2, bv) and at[0][2] == I.as_u(s2, radix)
-                    if not ok:
-                        problems.append('next value is %r, expected value / radix' % (ev,))
-                    if s2.is_ge0(I.as_u(s2, bv) - 1) is not True:
-                        problems.append('the loop body runs although the value may be zero')
-                # the digit stored this iteration: one unit at the new position, character class by digit value
-                stores = [e for e in s2.events if e[0] == 'fmt-store']
+                    if at is not None and isinstance(at[0], tuple) and at[0][0] == 'udiv' and at[0][1] == I.as_u(s2, bv) and at[0][2] == I.as_u(s2, radix):
+                        good = bv
+                if good is None:
+                    und.append('no carried value recognised as value := value / radix (carried: %s)' % ', '.join(repr(ev) for bv, ev in cands)[:120])
+                elif s2.is_ge0(I.as_u(s2, good) - 1) is not True:
+                    problems.append('the loop body runs although the value may be zero')
+        if need_exact and not problems:
+            # a table over-read seen in the abstraction of the loop: confirmed (or not) on an exactly interpreted prefix of the
+            # loop, where every value is a function of the inputs alone
+            class XH(IterHooks):
+                unroll = 6          # enough for a preparatory loop over the bits of the radix (radix <= 36) to run to completion
+                widen_on_entry = False
+                stop_at_widen = True
+            IX = Interp(m, F, E, XH())
+            stx = State()
+            objx = Obj('ext', Lin.const(lay['size']))
+            objx.lazy = True
+            stx.objs['FMTR'] = objx
+            vx = IX.fresh_int(stx, bits, 'value')
+            rx = IX.fresh_int(stx, 32, 'radix', lo=2, hi=36)
+            ux = IX.fresh_int(stx, 1, 'upper')
+            try:
+                outsx = IX.run(IX.start(f, [PtrV('FMTR'), vx, rx, ux], stx))
+            except Exception:
+                outsx = []
+            for ox in outsx:
+                for e in ox.st.events:
+                    if e[0] in ('oob', 'oob?') and isinstance(e[3], PtrV) and e[3].obj is not None and e[3].obj.startswith('G:'):
+                        env = e[6] if len(e) > 6 else None
+                        if (e[0] == 'oob' or env is not None) and robust([e[3].off]) and not problems:
+                            problems.append('%s of %r byte(s) at offset %r of a constant table of %r bytes at line %d%s' % (
+                                e[2], e[4], e[3].off, e[5], e[1].line, '; witness ' + own.fmt_env(env) if env else ''))
+            if problems:
+                und = [u for u in und if not u.startswith('bounds of the access')]
         if nb == 0:
-            problems.append('no loop iteration explored')
-        run.ob('R12.3', short(f.dem), not problems, problems[0] if problems else
+            und.append('no loop iteration explored')
+        run.ob('R12.3', short(f.dem), False if problems else (None if und else True), problems[0] if problems else und[0] if und else
                'divide-by-radix countdown, one unit backwards per iteration from index %d of a %d-unit buffer: at most %d iterations for radix >= 2' % (bits, cap, bits),
                loc=fn_loc(f), disc='digit loop')
         # entry: start position and terminator
